@@ -609,7 +609,7 @@ def export_text(backend, opt, env, sel, keys_ranks):
     return t1, t2
 
 
-def run_batch(backend, opt, specs, sel=None, want_text=False):
+def run_batch(backend, opt, specs, sel=None):
     """Export + read back one environment.
     -> ("ok", {spec id: None | (behaviour, expected, observed, tags)}, info) | ("fail", stage, message)"""
     from scinumtools.dip.settings import Format
@@ -624,9 +624,8 @@ def run_batch(backend, opt, specs, sel=None, want_text=False):
         types = o[1]
         chosen = select_model(specs, sel)
         plan = [(s, key, _mode(backend, opt, s)) for s, key in chosen]
-        live = [(s, key, mode) for s, key, mode in plan if not skip_reason(backend, opt, s)]
-        if len(live) != len(plan):
-            raise HarnessError("skipped parameter inside a batch")
+        if any(skip_reason(backend, opt, s) for s, _, _ in plan):
+            raise HarnessError("not-demanded parameter inside a batch")
         o = outcome(export_text, backend, opt, env, sel, [(key, mode) for s, key, mode in plan], timeout=60)
         if o[0] != "ok":
             return ("fail", "export", "%s: %s" % (o[1], o[2]))
@@ -678,8 +677,7 @@ def run_batch(backend, opt, specs, sel=None, want_text=False):
             extra = []
             if backend in ("bash", "json", "yaml", "toml", "dip"):
                 extra = sorted(set(obs) - set(it.name for it in items))
-        info = dict(programs=nprog, compared=ncmp, extra=extra, twice_differs=text2 != text,
-                    text=text if want_text else None, symbols=len(items))
+        info = dict(programs=nprog, compared=ncmp, extra=extra, twice_differs=text2 != text, symbols=len(items))
         return ("ok", results, info)
     finally:
         isolation.tables_restore()
@@ -815,16 +813,18 @@ def select_queries():
 
 
 # ---------------------------------------------------------------------------------------------- pairs phase
-def representatives():
-    seen, out = set(), []
-    for p in base_params():
-        key = p["family"]
-        if key in seen:
-            continue
-        # second element of the family so that representatives are not all zeros
-        cands = [x for x in base_params() if x["family"] == key]
-        seen.add(key)
-        out.append(named(cands[min(1, len(cands) - 1)], (len(out)) % NAMEKINDS))
+def representatives(tier="quick"):
+    """quick: one parameter per family (the second, so that not all are zeros); thorough: second, first and last"""
+    out = []
+    for fam in families():
+        cands = [x for x in base_params() if x["family"] == fam]
+        picks = [min(1, len(cands) - 1)]
+        if tier == "thorough":
+            for i in (0, len(cands) - 1):
+                if i not in picks:
+                    picks.append(i)
+        for i in picks:
+            out.append(named(cands[i], len(out) % NAMEKINDS))
     return out
 
 
@@ -859,9 +859,9 @@ def _text_only(backend, opt, specs):
         isolation.tables_restore()
 
 
-def run_pairs(backend, first_id, sh):
+def run_pairs(backend, first_id, sh, tier="quick"):
     opt = optsets(backend)[0]
-    reps = [r for r in representatives() if not skip_reason(backend, opt, r)]
+    reps = [r for r in representatives(tier) if not skip_reason(backend, opt, r)]
     p = [r for r in reps if r["id"] == first_id]
     if not p:
         return
@@ -987,10 +987,10 @@ def plan(tier, seed):
     for backend in order:
         for qi in range(len(select_queries())):
             shards.append(("select", backend, qi))
-    reps = representatives()
+    reps = representatives(tier)
     for backend in order:
         for r in reps:
-            shards.append(("pairs", backend, r["id"]))
+            shards.append(("pairs", backend, r["id"], tier))
     return shards
 
 
@@ -1015,8 +1015,8 @@ def run_shard(desc):
         sh.count("select:%s" % ("empty" if n == 0 else "some" if n < len(specs) else "all"))
         check_batch(backend, opt, specs, sh, sel)
     elif kind == "pairs":
-        _, backend, rid = desc
-        run_pairs(backend, rid, sh)
+        _, backend, rid, tier = desc
+        run_pairs(backend, rid, sh, tier)
     else:
         raise HarnessError("unknown shard %r" % (desc,))
     return sh
@@ -1080,7 +1080,7 @@ def finish(total, tier, seed):
                 option_sets={b: [o["id"] for o in optsets(b)] for b in BACKENDS},
                 name_kind_windows=[seed % NAMEKINDS] if tier == "quick" else list(range(NAMEKINDS)),
                 window=seed % NAMEKINDS, selections=len(select_queries()),
-                pair_representatives=len(representatives()),
+                pair_representatives=len(representatives(tier)),
                 bounds=dict(dtypes=DTYPES, shapes=["scalar", [3], [2, 3], [2, 2, 2]], unit=[None, UNIT],
                             name_kinds=["p", "grp.p", "box.cellSize.p"]),
                 caps_hit=[])
